@@ -42,6 +42,23 @@ func (x *Exec) guardCheck(st *State, pv Ptr, pos token.Pos, what string) {
 	}
 	fname := stt.Field(pv.Path[0].Field).Name()
 	if !g.Fields[fname] {
+		// field-access discipline of a shared object (data-race argument): atomic fields are never read or written
+		// plainly, frozen fields are never written after construction, every field is classified
+		if !g.Complete || isFreshSym(pv.R) || (x.fc != nil && x.fc.Constructs) {
+			return
+		}
+		switch {
+		case g.Atomic[fname]:
+			x.oblige(st, "race-discipline", x.pos(pos), fmt.Sprintf("plain %s of %s.%s, which is declared atomic (sync/atomic only)", what, g.Type, fname), g.SharedProps, tFalse)
+		case g.Frozen[fname]:
+			if what == "write" {
+				x.oblige(st, "race-discipline", x.pos(pos), fmt.Sprintf("write of %s.%s, which is declared frozen after construction", g.Type, fname), g.SharedProps, tFalse)
+			}
+		case g.Sync[fname]:
+			x.oblige(st, "race-discipline", x.pos(pos), fmt.Sprintf("%s of the synchronisation object %s.%s as a value (copy)", what, g.Type, fname), g.SharedProps, tFalse)
+		default:
+			x.oblige(st, "race-discipline", x.pos(pos), fmt.Sprintf("%s of %s.%s, which is not classified (guarded / atomic / frozen / sync)", what, g.Type, fname), g.SharedProps, tFalse)
+		}
 		return
 	}
 	if isFreshSym(pv.R) {
